@@ -652,8 +652,16 @@ class ImportDB:
             d[imp.import_as].add(imp)
             for prefix in dotted_prefixes(imp.fullname)[:-1]:
                 d[prefix].add(Import.from_parts(prefix, prefix))
-        return dict( (k, tuple(sorted(v - set(self.forget_imports.imports))))
-                     for k, v in d.items())
+        # Forgetting a derived parent-package entry (e.g. "import foo" while
+        # "import foo.bar" is known) can leave nothing under a key.  Drop such
+        # keys: a lookup must find at least one import or nothing at all.
+        forgotten = set(self.forget_imports.imports)
+        result = {}
+        for k, v in d.items():
+            imports = tuple(sorted(v - forgotten))
+            if imports:
+                result[k] = imports
+        return result
 
     def __repr__(self):
         printed = self.pretty_print()
